@@ -3,6 +3,7 @@ package sim
 import (
 	"encoding/json"
 	"fmt"
+	"os"
 	"time"
 
 	"github.com/weedbox/pokerface"
@@ -102,19 +103,20 @@ type actorEnt struct {
 	}
 	system bool
 	// request bookkeeping (C18 / C19)
-	reqKey      string
-	reqAtMs     int64
-	reqGS       *pokerface.GameState
-	reqIdx      int
-	reqSusp     bool
-	answered    map[string]int
-	lastObs     string
-	delivered   bool
-	syncDeliver bool // observer wired as in actor/*_test.go: handed the table synchronously from the engine callback
-	prevGS      *pokerface.GameState
-	prevIdx     int
-	prevAtMs    int64
-	prevSusp    bool
+	reqKey           string
+	reqAtMs          int64
+	reqGS            *pokerface.GameState
+	reqIdx           int
+	reqSusp          bool
+	answered         map[string]int
+	lastObs          string
+	delivered        bool
+	staleRedelivered int
+	syncDeliver      bool // observer wired as in actor/*_test.go: handed the table synchronously from the engine callback
+	prevGS           *pokerface.GameState
+	prevIdx          int
+	prevAtMs         int64
+	prevSusp         bool
 }
 
 type actorWorld struct {
@@ -504,6 +506,7 @@ func (w *actorWorld) onUpdate1(t *pt.Table) *pt.Table {
 func (w *actorWorld) deliverLoop(e *actorEnt) {
 	c := w.c
 	net := c.St.Get("client." + e.name)
+	var hist []*pt.Table
 	for !c.Stopped() {
 		if len(e.box) == 0 {
 			select {
@@ -518,7 +521,30 @@ func (w *actorWorld) deliverLoop(e *actorEnt) {
 			simrt.Sleep(0, time.Duration(d)*time.Millisecond)
 		}
 		w.deliver(e, t)
+		// F1: the transport hands an old notification over again, late (a retried or re-ordered delivery):
+		// possibly one of the previous hand, after the new hand has begun
+		hist = append(hist, t)
+		if len(hist) > 40 {
+			hist = hist[1:]
+		}
+		if e.kind != "observer" && len(hist) > 3 && net.Chance(1, 25) {
+			old := hist[net.Draw(len(hist)-1)]
+			c.Fault("F1_stale_redelivery")
+			e.staleRedelivered++
+			w.deliverStale(e, old)
+		}
 	}
+}
+
+// deliverStale hands an old notification to the actor without making it the request the actor's
+// calls are judged against: a runner must ignore it (its view is newer).
+func (w *actorWorld) deliverStale(e *actorEnt, t *pt.Table) {
+	simrt.Atomic(func() {
+		cp := cloneTable(t)
+		if cp != nil {
+			e.ad.UpdateTableState(cp)
+		}
+	})
 }
 
 func (w *actorWorld) deliver(e *actorEnt, t *pt.Table) {
@@ -570,7 +596,35 @@ func (w *actorWorld) deliver1(e *actorEnt, t *pt.Table) {
 	}
 	cur := w.c.Sch.Cur()
 	_ = cur
-	err := e.ad.UpdateTableState(t)
+	if c.Job.DumpLog && os.Getenv("VERIF_DELIVER_TRACE") != "" {
+		al := "-"
+		if gs := t.State.GameState; gs != nil {
+			if gi := t.GamePlayerIndex(e.id); gi >= 0 && gi < len(gs.Players) {
+				al = fmt.Sprint(gs.Players[gi].AllowedActions, " upd=", gs.UpdatedAt)
+			}
+		}
+		c.Logf("DELIVER to %s #%d %s allowed=%s", e.name, t.UpdateSerial, t.State.Status, al)
+	}
+	var err error
+	func() {
+		defer func() {
+			if r := recover(); r != nil {
+				if simrt.IsStopSignal(r) {
+					panic(r)
+				}
+				prop := map[string]string{"bot": "C18", "player": "C19", "observer": "C20"}[e.kind]
+				if prop == "" {
+					prop = "C18"
+				}
+				ev := "no hand state"
+				if t.State.GameState != nil {
+					ev = t.State.GameState.Status.CurrentEvent
+				}
+				c.Viol(prop, prop+".runner_panicked", map[string]any{"actor_kind": e.kind, "hand_state_present": t.State.GameState != nil}, "%s (%s) panicked when it was handed the table (status %s, %s): %v - a crash of the notifying goroutine in a deployment", e.name, e.kind, t.State.Status, ev, r)
+			}
+		}()
+		err = e.ad.UpdateTableState(t)
+	}()
 	_ = err
 	atomic := !simrt.AtomicBroken()
 	if before != nil && atomic {
@@ -766,6 +820,7 @@ func (w *actorWorld) atHorizon(horizon int64) {
 		if t := w.eng.GetTable(); t != nil && t.State.GameState != nil {
 			ev = t.State.GameState.Status.CurrentEvent + "/" + t.State.GameState.Status.Round
 		}
+		c.Logf("LOCKS: %s", c.Sch.LockState())
 		c.Viol("C18", "C18.bot_hand_not_settled", map[string]any{"stuck_at": ev}, "hand %d played by bots only opened at %dms and is not settled at %dms (stuck at %s)", w.opened, w.lastOpenMs, now, ev)
 	}
 	if w.opened == 0 && now > 40000 {
